@@ -294,6 +294,30 @@ def run(ctx):
                 meta.append(dict(inp=inp, impl=back))
             except Exception as e:
                 ctx.fail('roundtrip_raised', inp, impl=repr(e))
+        # positions a fraction of a sample around both ends (and inside): nearest-sample rule, refused outside [0, len] --
+        # in particular one sample before the start and one after the end, absolute and relative
+        for k0 in [-2, -1, 0, 1, L - 1, L, L + 1, L + 2, rng.randint(0, L)]:
+            for dlt in (-0.75, -0.3, 0.0, 0.3, 0.75):
+                pos = k0 + dlt
+                inp = dict(reader=s.name, position=pos, mode='offset_near_boundary')
+                ctx.seen(inp); ctx.count('mode:offset_near_boundary')
+                dtq = (pos / r.sample_rate).to(u.s)
+                for form in ('absolute', 'relative'):
+                    arg = (r.start_time + dtq) if form == 'absolute' else dtq
+                    try:
+                        got = int(r.offset_at(arg))
+                    except EOFError:
+                        got = None
+                    except Exception as e:
+                        ctx.fail('offset_at_wrong_error', dict(inp, form=form), impl=repr(e))
+                        continue
+                    want = int(np.floor(pos + 0.5))
+                    want = want if 0 <= want <= L else None
+                    if got != want:
+                        ctx.fail('offset_at_near_boundary', dict(inp, form=form), impl=got, model=want)
+                    if form == 'absolute':
+                        items.append(f'chk_offset {rlit} {qlit(X.sec(arg))} {"None" if got is None else "(Some %d)" % got}')
+                        meta.append(dict(inp=inp, impl=got))
         for dt_s in (-1.0, float(L / exp_rate) + 1.0):
             inp = dict(reader=s.name, t=dt_s, mode='offset_out_of_range')
             try:
